@@ -229,7 +229,10 @@ fn make_case(r: &mut rand::rngs::StdRng, k: usize) -> Case {
         used.push(a);
         used.push(b);
         // per-pair override?
-        let ov = if !directed.is_empty() { 0 } else { r.gen_range(0..5) };   // directed: NEVER_COLLIDES on the pair
+        // (forced family, k = 7 mod 10: a pair with a distance of its own, the big body aligned with its own frame and
+        //  coarser than the tiny one: above a face, off a corner, above a plate - in turn)
+        let forced = k % 10 == 7 && c == 0;
+        let ov = if !directed.is_empty() { 0 } else if forced { let _ = r.gen_range(0..5); 1 } else { r.gen_range(0..5) };   // directed: NEVER_COLLIDES on the pair
         let key = if r.gen_bool(0.5) { (a, b) } else { (b, a) };
         match ov {
             0 => table.push((key.0, key.1, -1_000_000)),
@@ -254,21 +257,21 @@ fn make_case(r: &mut rand::rngs::StdRng, k: usize) -> Case {
         let rm = rmin.max(0) as f64 / 1e6;
         // directed family: a small, finer-meshed body entirely inside the safety shell of a big coarse one (and the
         // reverse vertex-count assignment): the pre-filter's containment case
-        let contained = k % 4 == 1 && rmin > 20_000 && c == 0;
+        let contained = (k % 4 == 1 || forced) && rmin > 20_000 && c == 0;
         if contained {
             let (big, tiny) = if r.gen_bool(0.5) { (ia, ib) } else { (ib, ia) };
             scene.boxes[big].h = [0.6, 0.5, 0.7];
             scene.boxes[tiny].h = [0.004, 0.004, 0.004];
-            let fine_tiny = r.gen_bool(0.7);
+            let fine_tiny = r.gen_bool(0.7) || forced;
             scene.rich[tiny] = fine_tiny;
             scene.rich[big] = !fine_tiny;
         }
-        if contained && (k / 4) % 4 != 0 {
+        if contained && ((k / 4) % 4 != 0 || forced) {
             // tight local bounding box: the big body aligned with its own frame (robot part or environment object), the
             // tiny one hovering inside the shell: above a face; off a corner, inside the shell along every axis but further
             // away than the safety distance; above a plate without thickness
             let (big, tiny) = if scene.boxes[ia].h[0] > 0.1 { (a, b) } else { (b, a) };
-            scene.aligned_pair = Some(match (k / 4) % 4 { 1 => (big, tiny, rm * 0.3, 0), 2 => (big, tiny, rm * 0.8, 1), _ => (big, tiny, rm * 0.3, 2) });
+            scene.aligned_pair = Some(match if forced { 1 + (k / 10) % 3 } else { (k / 4) % 4 } { 1 => (big, tiny, rm * 0.3, 0), 2 => (big, tiny, rm * 0.8, 1), _ => (big, tiny, rm * 0.3, 2) });
         }
         let gap = if !directed.is_empty() { -0.004 } else if contained { rm * 0.45 } else { match r.gen_range(0..5) {
             0 => -0.004,                 // overlapping
